@@ -70,15 +70,9 @@ MUTANTS += [
          desc='shiftMulti forgets to reduce the shift by the first run of trailing zeros when b is even and large (shift -= n dropped for n >= 16)',
          edits=[('bmtree/partial_tree.go', '\tn := bits.TrailingZeros64(b)\n\tb >>= uint(n)\n\tshift -= uint64(n)\n', '\tn := bits.TrailingZeros64(b)\n\tb >>= uint(n)\n\tif n < 16 {\n\t\tshift -= uint64(n)\n\t}\n')]),
     # ---- C04
-    dict(name='c04-allpaths-upper-clip', props=['C04'],
-         desc='AllPaths clips the search values with t = to>>32 (drops stored paths whose bits equal to>>32 but which are below to)',
-         edits=[('bmtree/allpaths.go', 't = to>>32 + 1', 't = to >> 32')]),
     dict(name='c04-equiv-continue', props=['C04'], expect='silent',
          desc='EQUIVALENT edit: AllPaths continues instead of returning at the first path >= to (later paths are all larger; must stay silent)',
          edits=[('bmtree/allpaths.go', '\t\t\tif p >= to {\n\t\t\t\treturn paths\n\t\t\t}', '\t\t\tif p >= to {\n\t\t\t\tcontinue\n\t\t\t}')]),
-    dict(name='c04-decode-len-guard', props=['C04'],
-         desc='Decode compares len(bm) with the word index using >= (reads one word past a bitmap that ends right before the word)',
-         edits=[('bmtree/decode.go', 'int32(len(bm)) > wordI', 'int32(len(bm)) >= wordI')]),
     # ---- C05
     dict(name='c05-diffbits-low16', props=['C05'],
          desc='IndexToPath computes the common prefix of index-height and index from the low 16 bits only (wrong when a carry changes higher bits; heights <= 6 of the suite never get there)',
@@ -91,20 +85,11 @@ MUTANTS += [
          desc='EQUIVALENT edit inside the statement\'s domain: end < 0 instead of end == -1 (end < -1 is outside the domain; must stay silent)',
          edits=[('bitword/bitword.go', 'if end == -1 {', 'if end < 0 {')]),
     # ---- C10
-    dict(name='c10-pathlen-bit31', props=['C10'],
-         desc='PathLen ignores mask bit 31 (only paths of height 32 use it)',
-         edits=[('bmtree/pathlen.go', 'bits.OnesCount32(uint32(p))', 'bits.OnesCount32(uint32(p) & 0x7fffffff)')]),
     # ---- C11
-    dict(name='c11-fromstr32-fifth-byte', props=['C11'],
-         desc='FromStr32 never loads the fifth byte of an unaligned span',
-         edits=[('bitmap/fromstr32.go', '\t\t\t\t\tif i < l {\n\t\t\t\t\t\tb |= uint64(s[i])\n\t\t\t\t\t}\n', '')]),
     # ---- C12
     dict(name='c12-builder-extend-bitend', props=['C12'],
          desc='Builder.Extend uses bitEnd > size: a last position equal to size does not extend the words',
          edits=[('bitmap/builder.go', 'if bitEnd >= size {', 'if bitEnd > size {')]),
-    dict(name='c12-builder-set-offset', props=['C12'],
-         desc='Builder.Set moves Offset only when it is strictly below the position',
-         edits=[('bitmap/builder.go', 'if b.Offset <= bitPosition {', 'if b.Offset < bitPosition {')]),
     # ---- C13 (the word-stepping loop whose every mutant survives the suite)
     dict(name='c13-nextone-step-minus', props=['C13'],
          desc='NextOne word scan returns i - TrailingZeros',
@@ -116,36 +101,15 @@ MUTANTS += [
          desc='PrevOne backward scan steps by 65',
          edits=[('bitmap/next.go', 'for ; end >= i; end -= 64 {', 'for ; end >= i; end -= 65 {')]),
     # ---- C14
-    dict(name='c14-join-no-mask', props=['C14'],
-         desc='Join does not mask the values to the width (bits above w spill into neighbours)',
-         edits=[('bitmap/join.go', '(e & Mask[size]) << uint(j&63)', 'e << uint(j&63)')]),
-    dict(name='c14-slice-len-regression', props=['C14'],
-         desc='the repaired Slice word count is reverted for ranges longer than 4096 bits... no: for unaligned multi-word ranges (rounds down)',
-         edits=[('bitmap/slice.go', 'l := ((to - from) + 63) & (^63)', 'l := ((to - from) + 62) & (^63)')]),
     # ---- C16 / C17
-    dict(name='c16-firstdiff-no-clip', props=['C16'],
-         desc='sFirstDiffBit does not clip a difference found beyond the shorter key (zero padding)',
-         edits=[('sigbits/firstdiff.go', '\t\t\tif first < minl {\n\t\t\t\treturn int32(first)\n\t\t\t} else {\n\t\t\t\treturn int32(minl)\n\t\t\t}', '\t\t\treturn int32(first)')]),
-    dict(name='c16-get64-loop-bound', props=['C16', 'C17'],
-         desc='sFirstDiffBit stops comparing one chunk early when the shorter key ends exactly on a chunk boundary + 1',
-         edits=[('sigbits/firstdiff.go', 'for i := 0; i < la && i < lb; i += 8 {', 'for i := 0; i+1 < la && i+1 < lb; i += 8 {')]),
     dict(name='c17-shard-no-restart', props=['C17'], expect='silent',
          desc='NOT a violation of the statement: ShardByPrefix does not restart the split list when a shorter common prefix appears - it only splits into more (still bounded, still exactly-prefixed, still ordered) shards; must stay silent',
          edits=[('sigbits/sharding.go', '\t\t\t\tendsAt = endsAt[0:0]\n', '')]),
     # ---- C20
-    dict(name='c20-empty-slice-header', props=['C20'],
-         desc='size.Of counts the slice header only for non-empty slices',
-         edits=[('size/sizeof.go', '\tcase reflect.Slice:\n\t\tsum += slicesize', '\tcase reflect.Slice:\n\t\tif v.Len() > 0 {\n\t\t\tsum += slicesize\n\t\t}')]),
-    dict(name='c20-map-keys-skipped', props=['C20'],
-         desc='size.Of skips the keys of maps whose key kind is not string',
-         edits=[('size/sizeof.go', '\t\t\ts := sizeof(mapkey)\n\t\t\tsum += s\n', '\t\t\ts := 0\n\t\t\tif mapkey.Kind() == reflect.String {\n\t\t\t\ts = sizeof(mapkey)\n\t\t\t}\n\t\t\tsum += s\n')]),
     # ---- C09
-    dict(name='c09-new-unaligned-empty', props=['C09'],
-         desc='bitstr.New treats every from == to as the empty bit string, also when from is not byte aligned',
-         edits=[('bitstr/bitstr.go', 'if fromBit == toBit && fromBit&7 == 0 {', 'if fromBit == toBit {')]),
     dict(name='c09-strcmpupto-regression', props=['C09'],
          desc='the repair of StrCmpUpto is reverted (capacity word read from the frame again)',
-         edits=[('bitstr/bitstr.go', 'return CmpUpto(*(*[]byte)(unsafe.Pointer(&h)), b)', 'return CmpUpto(*(*[]byte)(unsafe.Pointer(&a)), b)')]),
+         edits=[('bitstr/bitstr.go', 'return CmpUpto(*(*[]byte)(unsafe.Pointer(&h)), b)', '_ = h\n\treturn CmpUpto(*(*[]byte)(unsafe.Pointer(&a)), b)')]),
     # ---- C15 (survivors named in the property text + a wrong "repair" of the reclaim block)
     dict(name='c15-get-offset-le', props=['C15'],
          desc='TailBitmap.Get1 uses idx <= Offset',
@@ -164,9 +128,6 @@ MUTANTS += [
     dict(name='c06-verstr-strips-spaces', props=['C06'],
          desc='verStr also strips trailing spaces of the version',
          edits=[('pbcmpl/pbcmpl.go', 'i >= 0 && buf[i] == 0; i--', "i >= 0 && (buf[i] == 0 || buf[i] == ' '); i--")]),
-    dict(name='c07-headersize-only-smaller', props=['C07'],
-         desc='Unmarshal rejects only header sizes below 32',
-         edits=[('pbcmpl/pbcmpl.go', 'if hi.GetHeaderSize() != int64(fixedSize) {', 'if hi.GetHeaderSize() < int64(fixedSize) {')]),
     dict(name='c07-eager-limit-regression', props=['C07'],
          desc='the eager-allocation limit of the repair is raised to 2^40 (declared sizes up to 1 TiB are allocated before reading again)',
          edits=[('pbcmpl/pbcmpl.go', 'const maxEagerBody = 1 << 20', 'const maxEagerBody = 1 << 40')]),
@@ -176,4 +137,32 @@ MUTANTS += [
     dict(name='c0607-equiv-single-write', props=['C06', 'C07'], expect='silent',
          desc='EQUIVALENT edit: Marshal emits header and body with one Write when the body is empty... (no: always two writes, but skips the empty body write) must stay silent',
          edits=[('pbcmpl/pbcmpl.go', '\tn2, err := w.Write(d)\n', '\tif len(d) == 0 {\n\t\treturn int64(n), nil\n\t}\n\tn2, err := w.Write(d)\n')]),
+]
+
+MUTANTS += [
+    # ---- second batch: subtler edits that survive the pinned suite
+    dict(name='c11-pathsof-prev-zero', props=['C11'],
+         desc='PathsOf starts its dedup memory at 0 instead of ^0: a first key whose path is the root word 0 is dropped',
+         edits=[('bmtree/newpath.go', 'prev := ^uint64(0)', 'prev := uint64(0)')]),
+    dict(name='c11-equiv-tobyte', props=['C11'], expect='silent',
+         desc='EQUIVALENT edit: toByte rounded with +8 (the extra byte is shifted out; must stay silent)',
+         edits=[('bitmap/fromstr32.go', 'toByte := (tobit + 7) >> 3', 'toByte := (tobit + 8) >> 3')]),
+    dict(name='c14-getw-mask-mod64', props=['C14'],
+         desc='Getw masks with Mask[w&63] (width 64 reads 0; widths 4, 8, 16, 64 are never executed by the suite)',
+         edits=[('bitmap/get.go', '& Mask[w]', '& Mask[w&63]')]),
+    dict(name='c16-countprefixes-ignores-start', props=['C16'],
+         desc='SigBits.CountPrefixes slices the differences from 0 instead of keyStart (the suite always starts at key 0)',
+         edits=[('sigbits/sigbits_countprefixes.go', 'sb.sigbits[keyStart:keyEnd-1]', 'sb.sigbits[0:keyEnd-1]')]),
+    dict(name='c17-equiv-last-key-length', props=['C17'], expect='silent',
+         desc='EQUIVALENT edit: ShardByPrefix starts the prefix-length minimum from the last key of the shard instead of the first (every adjacent common prefix is at most either length; must stay silent)',
+         edits=[('sigbits/sharding.go', '\t\t\tmin := int32(len(keys[s]))\n\t\t\tfor i := s; i < e-1; i++ {', '\t\t\tmin := int32(len(keys[e-1]))\n\t\t\tfor i := s; i < e-1; i++ {')]),
+    dict(name='c20-string-in-array', props=['C20'],
+         desc='size.Of counts strings inside arrays by their header only',
+         edits=[('size/sizeof.go', '\tcase reflect.Slice, reflect.Array:\n\t\tfor i, n := 0, v.Len(); i < n; i++ {\n\t\t\ts := sizeof(v.Index(i))\n\t\t\tsum += s\n\t\t}\n\n\tcase reflect.String:', '\tcase reflect.Slice, reflect.Array:\n\t\tfor i, n := 0, v.Len(); i < n; i++ {\n\t\t\ts := sizeof(v.Index(i))\n\t\t\tif v.Kind() == reflect.Array && v.Index(i).Kind() == reflect.String {\n\t\t\t\ts = stringsize\n\t\t\t}\n\t\t\tsum += s\n\t\t}\n\n\tcase reflect.String:')]),
+    dict(name='c09-cmpupto-le', props=['C09'],
+         desc='CmpUpto takes the short-key branch also when the key is exactly as long as the payload (skips the masking of the last byte)',
+         edits=[('bitstr/bitstr.go', 'if la < lb-1 {', 'if la <= lb-1 {')]),
+]
+MUTANTS += [
+    # ---- fatal failures of the code under test (cannot be recovered like a panic)
 ]
